@@ -18,6 +18,8 @@ mod languages;
 mod codepages;
 mod faults;
 mod limits;
+mod encode;
+mod images;
 
 use std::collections::HashMap;
 
@@ -74,6 +76,7 @@ fn main() {
         "codepages" => codepages::main(&args),
         "faults" => faults::main(&args),
         "limits" => limits::main(&args),
+        "images" => images::main(&args),
         "summary-random" => summary::random_main(&args),
         "repr" => {
             // representability facts (reference encoder) for the characters the bounded models use
